@@ -42,7 +42,7 @@ def cfgs(prop, tier):
     if prop == "C04":
         common = {"Ops": '{"SSTORE", "LOG", "CALL", "CREATE", "SELFDESTRUCT", "STOP", "RETURN", "REVERT", "INVALID"}',
                   "CallKinds": ALLK, "Targets": '{"a", "b", "n", "p"}', "Values": "{0, 1}",
-                  "FailKinds": '{"err", "oog", "rev"}', "MaxFailPos": "3", "InitProgs": '{"stop", "sstore", "revert"}',
+                  "FailKinds": '{"err", "oog", "rev"}', "MaxFailPos": "3", "InitProgs": '{"stop", "sstore", "revert", "nodeposit"}',
                   "TopCreates": "TRUE"}
         return dict(
             mc=[] if q else [dict(common, MaxInstr="3", MaxNodes="4")],
@@ -87,17 +87,19 @@ def cfgs(prop, tier):
             forks=["London"] if q else ["Byzantium", "London", "Cancun"])
     if prop == "C10":
         common = {"Ops": '{"SSTORE", "REGKEY", "JV", "CALL", "CREATE", "STOP", "REVERT"}', "CallKinds": ALLK,
-                  "Targets": '{"a", "b"}', "Values": "{0}", "Slots": "{0, 1}", "SVals": "{1, 2}",
+                  "Targets": '{"a", "b"}', "Values": "{0, 2}", "Slots": "{0, 1}", "SVals": "{1, 2}",
                   "FailKinds": '{"err"}', "MaxFailPos": "0", "InitProgs": '{"regjv"}', "JPInit": "{FALSE}"}
         return dict(
             mc=[] if q else [dict(common, MaxInstr="5", MaxNodes="3", Slots="{0}")],
-            scn=[dict(common, MaxInstr="4", MaxNodes="2", Slots="{0}"), dict(common, MaxInstr="3", MaxNodes="3")] if q else
+            scn=[dict(common, MaxInstr="4", MaxNodes="2", Slots="{0}"), dict(common, MaxInstr="3", MaxNodes="3"),
+                 # refused value calls (insufficient balance) between journal instructions, deeper in instructions, narrower alphabet
+                 dict(common, MaxInstr="4", MaxNodes="3", Slots="{0}", Ops='{"REGKEY", "JV", "CALL", "STOP"}', CallKinds='{"CALL"}', SVals="{1}")] if q else
                 [dict(common, MaxInstr="5", MaxNodes="3", Slots="{0}")],
             forks=["London"] if q else ["Frontier", "London", "Cancun"])
     if prop == "C13":
         common = {"Ops": '{"CALL", "CREATE", "CREATE2", "SELFDESTRUCT", "STOP", "REVERT", "INVALID"}',
-                  "CallKinds": '{"CALL", "CALLCODE", "DELEGATECALL"}', "Targets": '{"a", "b", "n", "p"}',
-                  "Values": "{0, 1, 2}", "FailKinds": '{"err"}', "MaxFailPos": "2",
+                  "CallKinds": ALLK, "Targets": '{"a", "b", "n", "p"}',
+                  "Values": "{0, 1, 2}", "FailKinds": '{"err"}', "MaxFailPos": "1",
                   "InitProgs": '{"stop", "revert"}', "TopCreates": "TRUE", "MaxTop": "2"}
         return dict(
             mc=[] if q else [dict(common, MaxInstr="3", MaxNodes="4")],
